@@ -1568,4 +1568,72 @@ theorem mkEnv_agree (x u : DVec ℝ) (t : ℝ) (x' u' : DVec ℝ) (hx : x'.lengt
     ∀ j, x.length + u.length ≤ j → mkEnv x' u' t j = mkEnv x u t j := fun j hj =>
   sub_eq_zero.mp (mkEnv_diff_support x u t x' u' hx hu j (by simpa using hj))
 
+/-! ### 12. A linear time-variant system written as an `NLS` (`Fn.lincomb`, `Fn.affRow`) -/
+
+theorem lincomb_free_affine (nv : ℕ) (cs : List Fn) (hc : ∀ c ∈ cs, c.freeOf nv = true) (lo : ℕ) :
+    (Fn.lincomb lo cs).affineIn nv = true := by
+  induction cs generalizing lo with
+  | nil => simp [Fn.lincomb, Fn.zero, Fn.affineIn]
+  | cons c cs ih =>
+    have h1 := hc c (by simp)
+    have h2 := ih (fun c' hc' => hc c' (by simp [hc'])) (lo + 1)
+    simp [Fn.lincomb, Fn.affineIn, h1, h2]
+
+/-- a coefficient is in particular affine -/
+theorem free_affine (nv : ℕ) (c : Fn) (e : c.freeOf nv = true) : c.affineIn nv = true := by
+  induction c with
+  | const s a b => rfl
+  | var i => rfl
+  | add a b iha ihb => simp only [Fn.freeOf, Bool.and_eq_true] at e; simp [Fn.affineIn, iha e.1, ihb e.2]
+  | sub a b iha ihb => simp only [Fn.freeOf, Bool.and_eq_true] at e; simp [Fn.affineIn, iha e.1, ihb e.2]
+  | mul a b iha ihb => simp only [Fn.freeOf, Bool.and_eq_true] at e; simp [Fn.affineIn, e.1, ihb e.2]
+  | neg a iha => simp only [Fn.freeOf] at e; simp [Fn.affineIn, iha e]
+  | sin a _ => simp only [Fn.freeOf] at e; simp [Fn.affineIn, e]
+  | cos a _ => simp only [Fn.freeOf] at e; simp [Fn.affineIn, e]
+  | pow a n _ => simp only [Fn.freeOf] at e; simp [Fn.affineIn, e]
+
+theorem affRow_affine (nv nx : ℕ) (a b : List Fn) (c : Fn) (ha : ∀ e ∈ a, e.freeOf nv = true)
+    (hb : ∀ e ∈ b, e.freeOf nv = true) (hc : c.freeOf nv = true) : (Fn.affRow nx a b c).affineIn nv = true := by
+  simp [Fn.affRow, Fn.affineIn, lincomb_free_affine nv a ha 0, lincomb_free_affine nv b hb nx, free_affine nv c hc]
+
+/-- the partial derivative of `Σ_j c_j · var (lo + j)` with respect to variable `v` is the coefficient `c_{v - lo}` (0 outside) -/
+theorem D_lincomb (nv : ℕ) (p : ℕ → ℝ) (v : ℕ) (hv : v < nv) (cs : List Fn) (hc : ∀ c ∈ cs, c.freeOf nv = true) (lo : ℕ) :
+    ((Fn.lincomb lo cs).D v).eval p = if lo ≤ v then (cs.getD (v - lo) Fn.zero).eval p else 0 := by
+  induction cs generalizing lo with
+  | nil => simp [Fn.lincomb, Fn.D, Fn.zero, Fn.eval]
+  | cons c cs ih =>
+    have h1 := D_free nv p v hv c (hc c (by simp))
+    have h2 := ih (fun c' hc' => hc c' (by simp [hc'])) (lo + 1)
+    simp only [Fn.lincomb, Fn.D, Fn.eval, h1, h2, zero_mul, zero_add]
+    rcases Nat.lt_trichotomy lo v with h | h | h
+    · have e1 : lo ≠ v := by omega
+      have e2 : v - lo = (v - (lo + 1)) + 1 := by omega
+      simp [e1, Fn.zero, Fn.eval, show lo + 1 ≤ v by omega, show lo ≤ v by omega, e2]
+    · subst h
+      simp [Fn.one, Fn.eval]
+    · have e1 : lo ≠ v := by omega
+      simp [e1, Fn.zero, Fn.eval, show ¬ lo + 1 ≤ v by omega, show ¬ lo ≤ v by omega]
+
+
+/-- a linear combination of variables that are all zero is zero -/
+theorem eval_lincomb_zero (p : ℕ → ℝ) (cs : List Fn) (lo : ℕ) (hz : ∀ j, lo ≤ j → j < lo + cs.length → p j = 0) :
+    (Fn.lincomb lo cs).eval p = 0 := by
+  induction cs generalizing lo with
+  | nil => simp [Fn.lincomb, Fn.zero, Fn.eval]
+  | cons c cs ih =>
+    have h1 : p lo = 0 := hz lo (le_refl _) (by simp)
+    have h2 := ih (lo + 1) (fun j hj1 hj2 => hz j (by omega) (by simp only [List.length_cons]; omega))
+    simp [Fn.lincomb, Fn.eval, h1, h2]
+
+/-- the environment of the origin: every state / input variable is 0 -/
+theorem mkEnv_origin (n m : ℕ) (t : ℝ) (j : ℕ) (hj : j < n + m) :
+    mkEnv (List.replicate n (0 : ℝ)) (List.replicate m (0 : ℝ)) t j = 0 := by
+  unfold mkEnv
+  simp only [List.length_replicate]
+  by_cases h : j < n
+  · simp [h, List.getD_eq_getElem?_getD]
+  · simp [h, hj, List.getD_eq_getElem?_getD]
+    have : j - n < m := by omega
+    simp [this]
+
 end PP.Dyn
